@@ -275,14 +275,31 @@ pub fn hash_trace(trace: &[Ev]) -> u64 {
     h.finish()
 }
 
-/// Executes the plan on a fresh thread and returns what happened.
+thread_local! {
+    static IN_RUNNER: std::cell::Cell<bool> = const { std::cell::Cell::new(false) };
+}
+
+/// Runs `f` on a dedicated runner thread with a large stack. Inside it, `run_plan` executes
+/// plans directly on that thread (the engine's thread-local id counters are reset before every
+/// run, hook H6), which avoids a thread spawn per run.
+pub fn on_runner_thread<R: Send + 'static>(f: impl FnOnce() -> R + Send + 'static) -> std::thread::Result<R> {
+    std::thread::Builder::new()
+        .stack_size(64 << 20)
+        .spawn(move || {
+            IN_RUNNER.with(|c| c.set(true));
+            f()
+        })
+        .expect("spawn runner thread")
+        .join()
+}
+
+/// Executes the plan (on the current runner thread, or on a fresh thread) and returns what happened.
 pub fn run_plan(plan: &Plan, keep_trace: bool) -> RunOutput {
+    if IN_RUNNER.with(|c| c.get()) {
+        return run_on_this_thread(plan, keep_trace);
+    }
     let plan = plan.clone();
-    let handle = std::thread::Builder::new()
-        .stack_size(4 << 20)
-        .spawn(move || run_on_this_thread(&plan, keep_trace))
-        .expect("spawn run thread");
-    match handle.join() {
+    match on_runner_thread(move || run_on_this_thread(&plan, keep_trace)) {
         Ok(out) => out,
         Err(_) => {
             let mut out = RunOutput::default();
@@ -294,6 +311,8 @@ pub fn run_plan(plan: &Plan, keep_trace: bool) -> RunOutput {
 
 pub fn run_on_this_thread(plan: &Plan, keep_trace: bool) -> RunOutput {
     let knobs = &plan.knobs;
+    incremental::verif::reset_ids();
+    LAST_PANIC.with(|p| *p.borrow_mut() = None);
     incremental::verif::set_hash_seed(knobs.hash_seed);
     match knobs.tie_break {
         Some(seed) => {
